@@ -21,12 +21,17 @@ LEVEL_TEXT = ("Lean 4 theorems, for every sorted sequence and both modes (nparti
               "(sdl_locations_strict), every division is the value at its location and the last is the last value "
               "(sdl_division_is_value_at_location, sdl_last), no boundary splits equal values (sdl_no_straddle, "
               "sdl_boundary_first_occurrence), whenever the function returns (proved by a loop invariant, no size bound); "
-              "sdl_exact_when_enough_unique_partial: for duplicate-free sequences and 1 <= n <= len the function returns "
-              "(no IndexError, fuel suffices) exactly n partitions at the ideal locations. 'npartitions met exactly' WITH "
-              "duplicates (enforce_exact branch), termination in general and the quantile "
-              "divisions (process_val_weights / RepartitionQuantiles: non-decreasing, span min..max) are VALIDATED only: "
-              "exhaustive over all sorted sequences of length <= 6 over 3 letters (thorough: <= 9 over 4) x all "
-              "npartitions/chunksize plus random longer ones, and random quantile inputs.")
+              "sdl_total: for EVERY sorted non-empty sequence and both modes (npartitions >= 1, any chunksize) the function "
+              "returns - no IndexError on offsets[ind]/seq[i], also not in the enforce_exact step-back, and the loop ends "
+              "within two iterations per boundary (general invariant GInv + measure, Lemmas/SDLTotal.lean); "
+              "sdl_at_most_n: never more than npartitions partitions; sdl_exact_when_enough_unique: the full fourth clause "
+              "- with at least n distinct values exactly n partitions, WITH duplicates (enforce_exact step-back arithmetic) "
+              "and without (sdl_exact_when_enough_unique_partial additionally gives the closed-form locations for "
+              "duplicate-free input). VALIDATED only: the quantile divisions (process_val_weights / RepartitionQuantiles: "
+              "non-decreasing, span min..max; numpy searchsorted/linspace on float weights, no Lean model) - random quantile "
+              "inputs and summaries. The tie of the model to the code is the function-level diff: exhaustive over all sorted "
+              "sequences of length <= 6 over 3 letters (thorough: <= 9 over 4) x all npartitions/chunksize (0 included) plus "
+              "random longer ones over int/str/float values.")
 LEVEL_NOTE = ("Trusted: Lean kernel + standard axioms; the differential tie model<->sorted_division_locations (function "
               "level, every run); values compared only through <,<=,== (interned order-preservingly); bisect/sorted/set "
               "of CPython; numpy searchsorted/interp inside process_val_weights (oracle-checked, not modelled).")
@@ -78,8 +83,15 @@ def case_sdl(ctx, inp):
     ctx.eq("sorted_division_locations", model, impl)
     if len(set(seq)) < len(seq):
         ctx.branch("duplicates")
-        if mode == "npartitions" and len(set(seq)) >= n:
+        if mode == "npartitions" and len(set(seq)) >= n >= 1:
             ctx.branch("enforce_exact")
+            stats = ctx.lean(Sym("sdl-stats"), seq, Sym(mode), n)
+            if stats[0] == "ok":
+                if stats[1][1] > 0:
+                    ctx.branch("enforce_exact-step-back")     # ind -= divs_remain - offs_remain really taken
+                if impl[0] == "ok" and stats[1][0] > 2 * (len(impl[2]) - 1):
+                    # proved bound (step_progress): at most two iterations per boundary
+                    ctx.disagree("iterations of the model exceed 2 per boundary", stats[1][0], 2 * (len(impl[2]) - 1))
     elif seq:
         ctx.branch("unique-" + mode)
     if impl[0] == "ok":
@@ -181,7 +193,10 @@ def generate(ctx):
     rng = ctx.rng
     # malformed stream
     yield "sdl", {"seq": [], "mode": "chunksize", "n": 2}
-    yield "sdl", {"seq": [1, 2], "mode": "npartitions", "n": 0} if False else {"seq": [], "mode": "npartitions", "n": 1}
+    yield "sdl", {"seq": [], "mode": "npartitions", "n": 1}
+    for seq0 in ([1, 2], [0, 0, 1], [3]):
+        yield "sdl", {"seq": seq0, "mode": "npartitions", "n": 0}     # falsy npartitions: TypeError in chunksizes()
+        yield "sdl", {"seq": seq0, "mode": "chunksize", "n": 0}       # chunksize 0: every step is the minimum step 1
     # exhaustive small space (quick: len<=6 over 3 letters; thorough: len<=9 over 4 letters)
     maxlen, letters = (6, 3) if not ctx.thorough() else (9, 4)
     for seq in _sorted_seqs(maxlen, letters):
@@ -197,6 +212,16 @@ def generate(ctx):
         n = rng.randint(1, ln + 2) if rng.random() < 0.8 else rng.randint(1, 4)
         yield "sdl", {"seq": seq, "mode": mode, "n": n, "kind": rng.choice(["int", "str", "float"]),
                       "container": rng.choice(["index", "ndarray"])}
+    # aimed at the enforce_exact step-back: short runs first, one long run later, npartitions close to the number
+    # of distinct values, so that an ideal-size step lands too far into the unique values
+    for _ in range(ctx.n(60, 1200)):
+        u = rng.randint(3, 9)
+        long_at = rng.randint(1, u - 1)
+        seq = []
+        for v in range(u):
+            seq += [v] * (rng.randint(6, 30) if v == long_at else rng.choice([1, 1, 1, 2, 3]))
+        yield "sdl", {"seq": seq, "mode": "npartitions", "n": rng.choice([u, u, u - 1, max(1, u - 2)]),
+                      "kind": rng.choice(["int", "str", "float"]), "container": rng.choice(["index", "ndarray"])}
     for _ in range(ctx.n(40, 400)):
         ln = rng.randint(1, 25)
         seq = sorted(rng.randint(0, rng.choice([3, 8, 30])) for _ in range(ln))
